@@ -91,12 +91,55 @@ def c05(tier):
     return chk.finish()
 
 
+JT = ("JsonSerTrace", "JsonSerTrace.cfg")
+
+
+def c03(tier):
+    import re
+    chk = Check("C03", tier)
+    thorough = tier == "thorough"
+    s = seed()
+    chk.rule = ("model: Encode over the serde data model (13 atoms; every composite kind over <=2 children, three levels, "
+                "deeper pools seeded random subsets): the text is balanced; every enumerated tree is instantiated as a "
+                "dynamic serde value and encoded by zlink with every buffer length 0..=len+2 and through send_error at 4 "
+                "buffer fill levels; TLC checks text = Encode(tree), refusal exactly for never-class keys, identity with "
+                "serde_json, free-space independence; plus seeded random trees, every Unicode scalar as string/key/char "
+                "(run-length encoded, TLC checks EscapeOf over each range), all 8/16-bit integers, boundary/random wide "
+                "integers and floats (thorough: all f32 bit patterns) against the reference formatter; "
+                "distinct_nontrivial = distinct trees with at least one composite node")
+    chk.assumptions = ["number atoms (floats, 64/128-bit integers) are compared with serde_json / Rust's formatter inside "
+                       "the harness; TLC checks structure, quoting, escaping and buffer-size independence",
+                       "non-ASCII bytes are written as <hex> in both the specification's text and the projection"]
+    r = tlc("MCJsonSer", "MCJsonSer_t.cfg" if thorough else "MCJsonSer_q.cfg", workers=1, timeout=1800,
+            tag="C03-enum", extra=["-seed", str(s)])
+    if not r.ok:
+        chk.violation(f"model MCJsonSer: {r.what}", r.out[-3000:], "model-jsonser.txt")
+    chk.add_model(r, "value-trees")
+    trees = chk.wdir("trees.json")
+    with open(trees, "w") as f:
+        for t in r.replays:
+            f.write(json.dumps(t) + "\n")
+    chk.extra["trees_enumerated_by_tlc"] = len(r.replays)
+    args = ["--seed", s, "--n", 20000 if thorough else 2000, "--trees", trees, "--sweep", "--numbers"]
+    if thorough:
+        args.append("--all-f32")
+    summ = _run_cases(chk, "jsonser", "prod", args, JT, "corpus", unit="tree")
+    chk.evaluations = summ["trees"] + summ["scalars"] + summ["atoms"]
+    chk.extra.update({"buffer_sizes_tried": summ["sizes_tried"], "unicode_scalars_swept_x3": summ["scalars"],
+                      "atoms_checked_against_reference": summ["atoms"]})
+    lines = read_lines(os.path.join(chk.wdir(), "corpus.ndjson"))
+    distinct = set(l for l in lines if '"ev":"tree"' in l and ('"items"' in l or '"entries"' in l or '"fields"' in l or '"v":{"t"' in l))
+    chk.nontrivial = len(distinct)
+    return chk.finish()
+
+
 def replay_case(pid, path):
     rp = json.load(open(path))
     chk = Check(pid, "quick")
     sc = os.path.join(chk.wdir(), "replay.cases.json")
     with open(sc, "w") as f:
-        f.write(json.dumps({"family": rp["family"], "frame": rp["case"].get("frame_full", rp["case"].get("frame", ""))}) + "\n")
+        f.write(json.dumps({"family": rp["family"], "frame": rp["case"].get("frame_full", rp["case"].get("frame", "")),
+                            "v": rp["case"].get("v", {"t": "null"})}) + "\n")
     trace = os.path.join(chk.wdir(), "replay.ndjson")
     zv(rp.get("variant", "prod"), [rp["family"], "--replay", sc, "--out", trace])
     import vlib
